@@ -1,4 +1,5 @@
 import MiniMcmcVerif.Props.C03
+import MiniMcmcVerif.Props.C03Transition
 import Mathlib.Tactic.Ring
 
 /-!
